@@ -50,6 +50,7 @@ def run(ctx):
     ctx.require('C09 decided cells', total_decided, ctx_floor(ctx))
     # R10: round / floor / ceil / trunc on rounding cells at the units position (every non-zero real pattern is in exactly one cell)
     import rules_rounding
+    ctx.trusted += [t for t in rules_rounding.TRUSTED if t not in ctx.trusted]
     from aval import AInt, AAgg
     from interp import Interp
     from symeval import SymEval, strip_refs
